@@ -36,6 +36,7 @@ def _c04(tier, seed):
     bodies = [0, 4, 12, 16, 20] if q else [0, 1, 4, 8, 12, 15, 16, 17, 20, 32, 40]
     runs = ["H_C04_short(39)", "H_C04_unencrypted(%d)" % (40 if q else 64)]
     runs += ["H_C04_keyholder(%d)" % b for b in nb]
+    runs += ["H_C04_nokey(%d,%d)" % (k, b) for k in ([0, 135, 255] if q else [0, 1, 20, 100, 135, 136, 200, 255]) for b in (1, 2)]
     runs += ["H_C04_tamper(%d,%d)" % (n, k) for n in bodies for k in range(4)]
     return [dict(name="forged", pkg="internal/mtproto/messages", harness=["harness/messages/ref.go", "harness/messages/c04.go"],
                  runs=runs, validate_runs=["H_C04_short(39)", "H_C04_unencrypted(40)", "H_C04_keyholder(3)", "H_C04_tamper(12,1)", "H_C04_tamper(12,2)"],
